@@ -299,7 +299,18 @@ def _wordwise_semantic(crate, I, b, tr, backs):
         stores = [e for e in body if e.kind == "store"]
         base_op = tr[: -len("Assign")] if tr.endswith("Assign") else tr
         prim = [e for e in stores if isinstance(e.val, tuple) and e.val and e.val[0] == "bin" and e.val[1] == base_op] if not wops and tr != "Not" else []
-        if prim:
+        upd_prim = []
+        if not wops and not prim and not stores and tr in ("BitAnd", "BitOr", "BitXor"):
+            # the same with the result array a local of an inlined helper: result[k] := self.data[k] OP rhs.data[k] as an update
+            # of that local (`zip_words(rhs, u64::bitand)`)
+            for l, v in st.env.items():
+                for x in ([v] + list(subterms(v))) if isinstance(v, tuple) else []:
+                    if x[0] == "upd" and isinstance(x[3], tuple) and x[3] and x[3][0] == "bin" and x[3][1] == base_op and ((x[2][0] == "elem" and x[2][2] == mk_int(0) and x[2][3] == N_) or x[2] in idxs):
+                        upd_prim.append(x)
+        if upd_prim:
+            ok = len(upd_prim) == 1 and val_pos(upd_prim[0][3][2]) == "self" and val_pos(upd_prim[0][3][3]) == "rhs"
+            desc = "result[k] = self.data[k] %s rhs.data[k] at every position k (primitive word operator)" % base_op
+        elif prim:
             # the word operator applied as the primitive `a & b` (a closure |a, b| a & b handed to a helper):
             # dest[k] = self.data[k] OP rhs.data[k]
             ok = len(prim) == 1 and len(stores) == 1
@@ -398,6 +409,10 @@ def _wordwise_alt(crate, I, b, tr, backs):
             ok = len(cl) == 1 and len(asg) == 1 and cl[0].args[0] in (("ref", ("deref", p1)), p1) and asg[0].args[1] in (p2, ("ref", ("deref", p2)))
             ok = ok and asg[0].args[0][0] == "ref" and asg[0].args[0][1][0] == "local" and ret[0] == "out" and ret[2] == asg[0].args[0][1][1] and ret[1] == asg[0].extra.get("uid")
             ok = ok and (asg[0].extra.get("argvals") or [None])[0] == cl[0].res
+            if not ok and not cl and len(asg) == 1:
+                # the left operand is taken by value (`impl BitAnd<&Bitset> for Bitset`): it is its own copy
+                ok = asg[0].args[1] in (p2, ("ref", ("deref", p2))) and asg[0].args[0][0] == "ref" and asg[0].args[0][1][0] == "local" and ret[0] == "out" \
+                    and ret[2] == asg[0].args[0][1][1] and ret[1] == asg[0].extra.get("uid") and (asg[0].extra.get("argvals") or [None])[0] == p1
             return ok, "copy of the left operand, then %sAssign with the right operand, returned" % tr
     # --- index loop: for i in 0..N { self.data[i] op= rhs.data[i] }
     if tr.endswith("Assign") and backs:
@@ -840,14 +855,10 @@ def check(col, prog, tier, profile, fixture=None):
             col.ok("K4" + sfx, b.loc(), "%s|word0" % fk(b), "[0; N] with data[0] = x")
         else:
             col.violation("K4" + sfx, "%s|word0" % fk(b), b.loc(), "from_u64 must place x in word 0 of a zeroed array: %s" % tstr(r))
-    der = {}
-    for imp in crate.impls:
-        if imp.get("self_adt") == adt["key"]:
-            t_ = (imp.get("trait") or "").split("::")[-1]
-            if t_ in ("PartialEq", "Eq"):
-                der[t_] = imp.get("derived")
+    eq_ok, eq_why = util.structural_eq(crate, adt)
+    has_eq = any(i.get("self_adt") == adt["key"] and str(i.get("trait") or "").endswith("cmp::Eq") for i in crate.impls)
     loc = "%s:%d" % (adt["span"]["file"], adt["span"]["line"])
-    if der.get("PartialEq") and der.get("Eq"):
-        col.ok("K4" + sfx, loc, "Bitset|derived-eq", "PartialEq/Eq derived on the word array", nontrivial=False)
+    if eq_ok and has_eq:
+        col.ok("K4" + sfx, loc, "Bitset|derived-eq", "PartialEq/Eq compare the word arrays (%s)" % eq_why, nontrivial=False)
     else:
-        col.violation("K4" + sfx, "Bitset|derived-eq", loc, "equality of Bitset must be the derived comparison of all words")
+        col.violation("K4" + sfx, "Bitset|derived-eq", loc, "equality of Bitset must be the comparison of all words (derived, or field by field): %s" % (eq_why if not eq_ok else "no Eq impl"))
